@@ -1167,8 +1167,10 @@ impl LZDiff {
             }
         }
 
-        // Remaining bases are literals
-        est_cost += text_size - i;
+        // Remaining bases are literals. A back-extended match is not rewound here (as in
+        // C++ AGC's Estimate), so `i` may have passed `text_size`; the 32-bit modular
+        // arithmetic of the original is kept, but made explicit.
+        est_cost = est_cost.wrapping_add(text_size.wrapping_sub(i));
 
         est_cost
     }
